@@ -72,6 +72,32 @@ class SingleFaults(Contract):
                 out.append(dict(label=f"{prog};ranks={size}", prog=prog,
                                 size=size, staple="chain", kind=None, rank=0,
                                 index=0))
+        # pairs of faults (C10's quantifier): all pairs in the thorough tier,
+        # every 9th pair in the quick tier
+        import itertools
+        for prog in ("pingpong", "ring", "halo2", "multisend",
+                     "recv_reused_later", "forwarding"):
+            for size in (2, 3):
+                if size == 3 and prog not in ("ring", "forwarding"):
+                    continue
+                singles = []
+                for r, ns, nr in D.count_ops(prog, size):
+                    for kind in D.FAULT_KINDS:
+                        if "redirect" in kind and size < 3:
+                            continue
+                        n = ns if kind.endswith("-send") else nr
+                        singles += [(kind, r, i) for i in range(n)]
+                pairs = [(f1, f2) for f1, f2 in itertools.combinations(
+                    singles, 2) if (f1[1], f1[0][-4:], f1[2]) != (
+                        f2[1], f2[0][-4:], f2[2])]
+                if tier != "thorough":
+                    pairs = pairs[::9]
+                for f1, f2 in pairs:
+                    out.append(dict(
+                        label=f"{prog};ranks={size};pair:{f1[0]}@rank{f1[1]}"
+                              f"#{f1[2]}+{f2[0]}@rank{f2[1]}#{f2[2]}",
+                        prog=prog, size=size, staple="chain", kind="pair",
+                        rank=0, index=0, pair=[list(f1), list(f2)]))
         return out
 
     def canaries(self, tier):
@@ -81,7 +107,9 @@ class SingleFaults(Contract):
 
     def run(self, h, inst):
         fault = None
-        if inst["kind"] not in (None, "none"):
+        if inst["kind"] == "pair":
+            fault = [D.Fault(*f) for f in inst["pair"]]
+        elif inst["kind"] not in (None, "none"):
             fault = D.Fault(inst["kind"], inst["rank"], inst["index"])
         try:
             ctxs, res, raised = spmd(h, inst["size"], inst["prog"],
@@ -96,10 +124,11 @@ class SingleFaults(Contract):
         if fault is not None and ctxs and len(ctxs) == inst["size"]:
             nsend, nrecv = {}, {}
             for r, c in ctxs.items():
-                for _d, dest, tag in c.sends:
+                live_s, live_r = D.live_ops(c.outputs)
+                for dest, tag in live_s:
                     k = (r, dest, repr(tag))
                     nsend[k] = nsend.get(k, 0) + 1
-                for src, tag in c.recvs:
+                for src, tag in live_r:
                     k = (src, r, repr(tag))
                     nrecv[k] = nrecv.get(k, 0) + 1
             owners = set()
@@ -109,7 +138,35 @@ class SingleFaults(Contract):
                 if nrecv.get(k, 0) != 1:
                     owners.add(k[1])
             owners &= set(range(inst["size"]))
+            if inst["kind"] == "pair" and not owners:
+                # the two faults cancel: every message has exactly one send
+                # and one receive again.  Then either the program is accepted
+                # and the partition is sound, or it is cyclic and says so.
+                from pytools.graph import CycleError
+
+                from pytato.distributed.verify import \
+                    PartitionInducedCycleError
+                if res is None:
+                    ok = all(isinstance(e, (CycleError,
+                                            PartitionInducedCycleError))
+                             for _s, e in raised.values()) and bool(raised)
+                    h.oblige("dist.faults.matching-program-rejected-only-if-"
+                             "cyclic", z3.BoolVal(ok),
+                             info={r: f"{type(e).__name__}: {e}"[:120]
+                                   for r, (_s, e) in raised.items()})
+                else:
+                    bad = D.check_global([s_ for s_, _, _ in res])
+                    h.oblige("dist.faults.matching-program-partition-sound",
+                             z3.BoolVal(not bad), info=bad[:3])
+                return
             silent = sorted(owners - set(raised))
+            if inst["kind"] == "pair":
+                # with two faults one rank may diagnose its own and stop
+                # before the other reaches its check: the other is then left
+                # waiting in a collective (MPI aborts the job); what must not
+                # happen is that an owner *returns a partition*
+                blocked = set(getattr(spmd, "last_blocked", {}) or {})
+                silent = sorted(owners - set(raised) - blocked)
             h.oblige(f"dist.faults.diagnosed-on-the-rank-owning-the-faulty-"
                      f"endpoint[{what}]", z3.BoolVal(not silent),
                      info=dict(silent_ranks=silent,
